@@ -35,11 +35,10 @@ import numpy as np
 from .. import gen, ser
 
 THEOREMS = [
-    "SymmModel.C16.randIndex_wf_partial",
-    "SymmModel.C16.randIndex_wf_counterexample",
+    "SymmModel.C16.randIndex_wf",
     "SymmModel.C16.randIndex_unsupported",
-    "SymmModel.C16.randZ2Index_wf_partial",
-    "SymmModel.C16.randZ2Index_minimal_counterexample",
+    "SymmModel.C16.randZ2Index_wf",
+    "SymmModel.C16.randZ2Index_minimal_single_charge",
     "SymmModel.C16.randZ2Z2Index_wf",
     "SymmModel.C16.randU1Index_wf",
     "SymmModel.C16.randU1U1Index_wf",
@@ -74,7 +73,6 @@ RULE = ("random constructors of utils.py against the Lean model on all four symm
 SYMS = ["Z2", "Z2Z2", "U1", "U1U1"]
 MODES = ["equal", "maximal", "minimal"]
 DTYPES = ["float32", "float64", "complex64", "complex128"]
-KNOWN_TRIGGER = "z2_minimal_zero_size"
 
 
 # ---------------------------------------------------------------------------------------------
@@ -281,8 +279,6 @@ def _index_case(u, rng, sym, d, dual, subsizes, dispatch, seed, oracle_applies):
     if st == "ok" and oracle_applies and not isinstance(d, dict):
         want_dual = dual if dual is not None else q["draws"].get("dual")
         orc = _index_oracle(sym, r, int(d), want_dual)
-        if orc and sym == "Z2" and subsizes == "minimal" and int(d) >= 2:
-            trig.add(KNOWN_TRIGGER)
     if st == "err" and oracle_applies:
         orc = f"raised {type(r).__name__}: {r}"
     nontrivial = st == "ok" and "ok" in obs and len(obs["ok"]["cm"]) >= 2
@@ -296,6 +292,18 @@ def _composition(rng, d, n):
     cuts = sorted(rng.sample(range(1, d), n - 1)) if n > 1 else []
     pts = [0] + cuts + [d]
     return tuple(pts[i + 1] - pts[i] for i in range(n))
+
+
+def gen_corpus_cases(u, rng):
+    """regression corpus, run first: the repaired finding rand-z2-index-minimal-zero-size
+    (rand_z2_index(d, subsizes="minimal") used to return {0: d, 1: 0} for d >= 2)"""
+    out = []
+    for d in (2, 3, 4, 5):
+        for dual, dispatch in ((False, False), (True, True), (None, False)):
+            it = _index_case(u, rng, "Z2", d, dual, "minimal", dispatch, 1000 + d, True)
+            it["meta"] = dict(stream="corpus", sym="Z2", mode="minimal")
+            out.append(it)
+    return out
 
 
 def gen_index_cases(u, rng, tier):
@@ -493,9 +501,6 @@ def gen_array_cases(u, sr, rng, tier):
             if st == "ok":
                 note = str(e)
         trig = set()
-        has_known = sym == "Z2" and subs == "minimal" and any(isinstance(e, int) and e >= 2 for e in shape)
-        if has_known:
-            trig.add(KNOWN_TRIGGER)
         if st != "ok":
             out.append(dict(q=q, obs={"err": _exc_kind(r)}, oracle=f"get_rand raised {type(r).__name__}: {r}",
                             triggers=trig, op="get_rand", note=note, nontrivial=False,
@@ -595,7 +600,7 @@ def run_c16_rand(ctx):
                           op=f.__name__)
         except ValueError:
             pass
-    items = gen_index_cases(u, rng, ctx.tier) + gen_fn_cases(u, rng, ctx.tier) \
+    items = gen_corpus_cases(u, rng) + gen_index_cases(u, rng, ctx.tier) + gen_fn_cases(u, rng, ctx.tier) \
         + gen_array_cases(u, sr, rng, ctx.tier)
     ctx.evaluations += len(items)
     withq = [it for it in items if it["q"] is not None]
@@ -617,7 +622,7 @@ def run_c16_rand(ctx):
             ctx.stat(f"rand.{kk}={v}")
         if it["nontrivial"]:
             ctx.mark_nontrivial(json.dumps(it["q"], sort_keys=True, default=str))
-        if it["meta"]["stream"] in ("index", "get_rand"):
+        if it["meta"]["stream"] in ("index", "get_rand", "corpus"):
             ctx.sample({"query": it["q"], "observed": it["obs"]}, limit=4)
         case = {"query": it["q"], "observed": it["obs"]}
         m = answers.get(id(it))
@@ -630,7 +635,7 @@ def run_c16_rand(ctx):
             if agree:
                 # the model's own verdict must coincide with the direct oracle's
                 wf = _model_says_wellformed(it, m)
-                if wf is not None and it["oracle"] is not None and wf and it["meta"]["stream"] == "index":
+                if wf is not None and it["oracle"] is not None and wf and it["meta"]["stream"] in ("index", "corpus"):
                     ctx.correspondence_broken("c16_rand:wfB-vs-oracle",
                                               json.dumps(dict(case=case, oracle=it["oracle"]), default=str)[:3000])
         if it["oracle"] is not None:
